@@ -17,7 +17,8 @@ package main
 // plain keys [A-Za-z0-9_-]+ (no list indices), the template micro-fragment `literal | {{ .a.b }}` of
 // scalars — plus three actions that fail while the template is being EXECUTED: `{{ template "name" }}` (the
 // programs never define an associated template), `{{ fail "text" }}` and `{{ index .a.b N }}` of something
-// that is not there —, parseAs none, distinct sibling names and orders, container queries with at most one
+// that is not there — and texts that do NOT PARSE (an opening `{{` that no `}}` follows, wherever it sits; a
+// block keyword on its own; an undefined function): no template, a rendering error —, parseAs none, distinct sibling names and orders, container queries with at most one
 // key (Go map order is unspecified beyond that).  Outside it the result is marked unsupported (with the
 // reason) and the harness compares nothing — shrink candidates and witness-search neighbours may leave the
 // domain.
@@ -287,10 +288,11 @@ func refMergeKvs(c1, c2 map[string]any) map[string]any {
 // ---------------------------------------------------------------- templates (micro-fragment)
 
 type refSeg struct {
-	lit   string
-	keys  []string // nil: literal (or one of the two below)
-	fails bool     // an action that fails whenever it is executed
-	index bool     // `index .keys N`
+	lit     string
+	keys    []string // nil: literal (or one of the three below)
+	fails   bool     // an action that fails whenever it is executed
+	index   bool     // `index .keys N`
+	noParse bool     // the text is no template at all: it does not parse (nothing of it is ever executed)
 }
 
 var refIdentRe = regexp.MustCompile(`^[A-Za-z_][A-Za-z0-9_]*$`)
@@ -299,8 +301,22 @@ var refIdentRe = regexp.MustCompile(`^[A-Za-z_][A-Za-z0-9_]*$`)
 var refAlwaysFailsRe = regexp.MustCompile(`^(template|fail) "[A-Za-z0-9 _-]*"$`)
 var refIndexRe = regexp.MustCompile(`^index (\.[A-Za-z_][A-Za-z0-9_]*(?:\.[A-Za-z_][A-Za-z0-9_]*)*) [0-9]+$`)
 
+// actions that make the text unparsable whatever surrounds them: a block keyword without its value or without its
+// block, a function nobody defined
+var refNeverParsesRe = regexp.MustCompile(`^(end|else|if|range|with|nosuchfunc)$`)
+
+// refUnclosed: an opening `{{` that no `}}` follows — an unclosed action, a syntax error wherever it sits
+func refUnclosed(t string) bool {
+	i := strings.LastIndex(t, "{{")
+	return i >= 0 && !strings.Contains(t[i+2:], "}}")
+}
+
 func refParseTmpl(t string) []refSeg {
 	var segs []refSeg
+	if refUnclosed(t) {
+		// parsing comes before execution: whatever the text holds before the unclosed action, nothing is rendered
+		return []refSeg{{noParse: true}}
+	}
 	for len(t) > 0 {
 		i := strings.Index(t, "{{")
 		if i < 0 {
@@ -317,6 +333,9 @@ func refParseTmpl(t string) []refSeg {
 		}
 		inner := strings.TrimSpace(t[:j])
 		t = t[j+2:]
+		if refNeverParsesRe.MatchString(inner) {
+			return []refSeg{{noParse: true}}
+		}
 		if refAlwaysFailsRe.MatchString(inner) {
 			segs = append(segs, refSeg{fails: true})
 			continue
@@ -394,7 +413,13 @@ func refEvalRef(d map[string]any, keys []string) (string, bool) {
 // Render: (text, ok) — all of the text or, when any action fails, none of it
 func refRender(t string, d map[string]any) (string, bool) {
 	var sb strings.Builder
-	for _, s := range refParseTmpl(t) {
+	segs := refParseTmpl(t)
+	for _, s := range segs {
+		if s.noParse {
+			return "", false // a text that does not parse renders nothing and executes nothing
+		}
+	}
+	for _, s := range segs {
 		if s.fails {
 			return "", false
 		}
